@@ -5,16 +5,16 @@ set -u
 export GOFLAGS=-mod=mod GOPROXY=off GOSUMDB=off GOTOOLCHAIN=local
 wt=$1; sd=$2; shift 2
 cd "$wt" || exit 9
-git checkout -q -- . ; rm -f zz_demo_test.go
-cp "$sd/demo_test.go" zz_demo_test.go
-pkg=$(grep -m1 '^package' zz_demo_test.go | awk '{print $2}')
-echo "== demo without patch (must pass)"; go test -vet=off -count=1 -run 'TestSeed' . 2>&1 | tail -2
+git checkout -q -- . ; rm -rf zz_demo_test.go zz_seed; git checkout -q --detach $(git -C /repo rev-parse HEAD)
+pkg=$(grep -m1 '^package' "$sd/demo_test.go" | awk '{print $2}')
+if [ "$pkg" = "ojg_test" ]; then cp "$sd/demo_test.go" zz_demo_test.go; tgt=.; else mkdir -p zz_seed; cp "$sd/demo_test.go" zz_seed/demo_test.go; tgt=./zz_seed/; fi
+echo "== demo without patch (must pass)"; go test -vet=off -count=1 -run 'TestSeed' $tgt 2>&1 | tail -2
 git apply "$sd/patch.diff" || { echo "PATCH DOES NOT APPLY"; exit 8; }
-echo "== demo with patch (must fail)"; go test -vet=off -count=1 -run 'TestSeed' . 2>&1 | tail -3
-rm -f zz_demo_test.go
+echo "== demo with patch (must fail)"; go test -vet=off -count=1 -run 'TestSeed' $tgt 2>&1 | tail -3
+rm -rf zz_demo_test.go zz_seed
 echo "== suite with patch (must pass)"; go test -vet=off -count=1 ./... 2>&1 | grep -v "no test files" | grep -v "^ok" | head; echo "(suite done)"
 for id in "$@"; do
   echo "== check $id"
-  (cd /verif && VERIF_REPO="$wt" ./check "$id" --tier quick 2>&1 | grep -E "^VIOLATION|^KNOWN|^INFRA|^\[verif\] C[0-9]+ quick" | head -6)
+  (cd /verif && VERIF_REPO="$wt" ./check "$id" --tier quick 2>&1 | grep -E "^VIOLATION|^INFRA|^\[verif\] C[0-9]+ quick" | head -6)
 done
 git checkout -q -- .
